@@ -1,7 +1,9 @@
 ---------------------------- MODULE GeoFuncComp ----------------------------
 (* C07 -- user-defined (polynomial) functions, compositions geo2 o geo1 and physical gradients.
-   One TLC state per case; CompOK checks the chain rule against a directional difference-free identity (see below) and
-   emits the exact values / Jacobians for the replay through UserFunction, ComposedFunction, _BoundaryFunction and
+   One TLC state per case.  TLC checks on the reference itself: Euler's identity sum_b x_b d_b m = deg(m) m for every
+   monomial (derivatives of the polynomial maps), that the inner map of a composition stays inside the domain of the
+   outer map, det J > 0 and J^T (J^-T grad u) = grad u for the physical gradients; and emits the exact values /
+   Jacobians (chain rule J2(G1(u)) J1(u)) for the replay through UserFunction, ComposedFunction, _BoundaryFunction and
    PhysicalGradientFunc.                                                                                             *)
 EXTENDS GeoFunc, Emit
 
